@@ -16,9 +16,9 @@ use crate::ring_like::digest;
 #[cfg(feature = "pem")]
 use crate::ENCODE_CONFIG;
 use crate::{
-	check_ia5, check_time, oid, write_distinguished_name, write_dt_utc_or_generalized,
-	write_x509_authority_key_identifier, write_x509_extension, DistinguishedName, Error, Issuer,
-	KeyIdMethod, KeyPair, KeyUsagePurpose, SanType, SerialNumber,
+	check_ia5, check_name, check_oid, check_time, oid, write_distinguished_name,
+	write_dt_utc_or_generalized, write_x509_authority_key_identifier, write_x509_extension,
+	DistinguishedName, Error, Issuer, KeyIdMethod, KeyPair, KeyUsagePurpose, SanType, SerialNumber,
 };
 
 /// An issued certificate together with the parameters used to generate it.
@@ -435,6 +435,22 @@ impl CertificateParams {
 		Ok(result)
 	}
 
+	/// Checks the caller-supplied OIDs that end up in extensions.
+	fn check_extension_oids(&self) -> Result<(), Error> {
+		for san in &self.subject_alt_names {
+			if let SanType::OtherName((oid, _)) = san {
+				check_oid(oid)?;
+			}
+		}
+		for usage in &self.extended_key_usages {
+			check_oid(usage.oid())?;
+		}
+		for ext in &self.custom_extensions {
+			check_oid(&ext.oid)?;
+		}
+		Ok(())
+	}
+
 	/// Write a CSR extension request attribute as defined in [RFC 2985].
 	///
 	/// [RFC 2985]: <https://datatracker.ietf.org/doc/html/rfc2985>
@@ -601,6 +617,11 @@ impl CertificateParams {
 		{
 			return Err(Error::UnsupportedInCsr);
 		}
+		check_name(distinguished_name)?;
+		self.check_extension_oids()?;
+		for Attribute { oid, .. } in &attrs {
+			check_oid(oid)?;
+		}
 
 		// Whether or not to write an extension request attribute
 		let write_extension_request = !key_usages.is_empty()
@@ -648,13 +669,20 @@ impl CertificateParams {
 	) -> Result<CertificateDer<'static>, Error> {
 		check_time(self.not_before)?;
 		check_time(self.not_after)?;
+		check_name(issuer.distinguished_name)?;
+		check_name(&self.distinguished_name)?;
+		self.check_extension_oids()?;
 		for subtree in self
 			.name_constraints
 			.iter()
 			.flat_map(|c| c.permitted_subtrees.iter().chain(&c.excluded_subtrees))
 		{
-			if let GeneralSubtree::Rfc822Name(name) | GeneralSubtree::DnsName(name) = subtree {
-				check_ia5(name)?;
+			match subtree {
+				GeneralSubtree::Rfc822Name(name) | GeneralSubtree::DnsName(name) => {
+					check_ia5(name)?
+				},
+				GeneralSubtree::DirectoryName(name) => check_name(name)?,
+				GeneralSubtree::IpAddress(_) => {},
 			}
 		}
 		for distribution_point in &self.crl_distribution_points {
@@ -888,11 +916,11 @@ fn write_general_subtrees(writer: DERWriter, tag: u64, general_subtrees: &[Gener
 						GeneralSubtree::DirectoryName(name) => writer
 							.next()
 							.write_tagged(tag, |writer| write_distinguished_name(writer, name)),
-						GeneralSubtree::IpAddress(subnet) => writer
-							.next()
-							.write_tagged_implicit(tag, |writer| {
+						GeneralSubtree::IpAddress(subnet) => {
+							writer.next().write_tagged_implicit(tag, |writer| {
 								writer.write_bytes(&subnet.to_bytes())
-							}),
+							})
+						},
 					}
 					// minimum must be 0 (the default) and maximum must be absent
 				});
